@@ -8,6 +8,24 @@ VERIF = os.path.dirname(os.path.dirname(os.path.dirname(os.path.abspath(__file__
 TRUST = 'trusted: clang 14 front end (AST, CFG, constant evaluator), engine/extractor/ebusfacts.cc, engine/py analyses; '
 
 CHECKS = {
+    'C05': dict(
+        text='static table conformance: all 80 built-in type rows (every constructor argument, evaluated by clang) equal '
+             'the reference table and satisfy per-kind invariants (widths, BCD maxima on the decoded value, replacement '
+             'outside the value range, signed ranges); BCD/HCD digit guards dominate every digit conversion; range check '
+             'and null handling dominate every numeric formatting path; date/time field guards are present. Numeric '
+             'results (fractions, float formatting, calendar arithmetic) are not decided.',
+        note=TRUST + 'engine/spec/datatypes.json (reference table written from the inline type documentation); flags from '
+             'the macros of datatype.h evaluated through a probe translation unit',
+        technique='constant/table extraction and comparison + guard-set dominance on the CFG'),
+    'C11': dict(
+        text='static table proofs: all 256 CRC table entries equal multiplication by x^8 modulo x^8+x^7+x^4+x^3+x+1 '
+             '(computed independently), the update step is TABLE[crc]^value, calcCrc feeds the escaped sequence; the '
+             'escape table agrees at its four sites and the parser rejects bare SYN / bad pairs / dangling ESC; the master '
+             'nibble table, nibble use, +-5 mapping and address exclusions are as specified, from which 25 masters and a '
+             'bijective numbering follow by arithmetic on the extracted tables. Complete for the CRC step and address '
+             'classes (the tables are the functions); string-level parsing results are not decided.',
+        note=TRUST + 'polynomial and escape codes from the eBUS specification as quoted in the property',
+        technique='evaluated-constant table extraction, operand provenance, switch-table extraction, guard dominance'),
     'C07': dict(
         text='static dataflow + path-sensitive dominance over the clang CFG: every narrowing conversion of a '
              'strtol/strtoul/strtod result (or float parameter of a data type method) in the codec sources is bounded on the '
